@@ -14,7 +14,7 @@ runtime quantity).
 import re
 
 from .. import mir, e3_trav as e3
-from ..common import CallGraph, table, call_matches, is_derive
+from ..common import CallGraph, table, call_matches, is_derive, with_closures
 from ..engine import Result, ok, finding, assumption, where
 from ..facts import BrokenCheck
 from . import c12
@@ -208,6 +208,52 @@ def gate(F, res):
         res.add([finding("GATE", key, where(g), "TirVersion::try_from has no error arm for unknown version strings")])
 
 
+def handcode(F, res):
+    """Writer/reader agreement is argued from serde's derive.  Any hand-written function inside the call-graph closure of the
+    derived Serialize/Deserialize impls (a `#[serde(with = ..)]` module, a `serialize_with`/`deserialize_with` helper, a
+    custom Visitor) takes that part of the wire format out of the argument: reader and writer are then two independent pieces
+    of code (and e.g. ciborium's `deserialize_bytes` only hands over byte strings that fit its 4096-byte scratch buffer)."""
+    roots = [p for p, f in F.fns.items() if f["crate"] == "tx3_tir" and re.search(r"(Serialize|Deserialize<'de>) for .*>::(serialize|deserialize)$", p) and is_derive(f)]
+    res.count("derived codec entry points", len(roots))
+    res.floor("derived codec entry points", len(roots), 40)
+    gen = [f for f in F.fns.values() if f["crate"] == "tx3_tir" and is_derive(f) and "_serde::" in f["path"]]
+    res.count("serde-generated functions", len(gen))
+    res.floor("serde-generated functions", len(gen), 200)
+    bad = {}
+    # (a) a derive-generated function calls (or names) a hand-written workspace function directly
+    for f in gen:
+        for bi, t in mir.calls(f):
+            for r in [t.get("resolved"), t.get("callee")] + list(t.get("fnrefs") or []):
+                g = F.fns.get(r) if r else None
+                if g is not None and g["crate"].startswith("tx3") and not is_derive(g):
+                    bad.setdefault(r, "called from the generated %s" % f["path"].split("::")[-1])
+    # (b) hand-written impls of serde's traits in the crate that defines the wire types
+    for i in F.impls:
+        tr = i.get("trait") or ""
+        if i.get("crate") == "tx3_tir" and re.search(r"(^|::)_?serde::|^serde::", tr) and not i.get("derived"):
+            bad.setdefault("impl %s for %s" % (tr.split("::")[-1], i.get("self")), "hand-written impl of a serde trait")
+    key = "tx3_tir wire types|codec is derive-generated only"
+    if not bad:
+        res.add([ok("HANDCODE", key, "crates/tx3-tir/src/model", "%d serde-generated functions call no hand-written workspace function; no hand-written impl of a serde trait in tx3_tir" % len(gen))])
+        return
+    # hand-written codec code exists.  What is known to be wrong is reported; the rest is an explicit assumption (the
+    # derive-based agreement argument does not cover it, but nothing shows it to be wrong).
+    LIMITED = {"deserialize_bytes": "byte string", "deserialize_str": "text string"}
+    for b, why in sorted(bad.items()):
+        g = F.fns.get(b)
+        hits = []
+        if g is not None:
+            for h in with_closures(F, g):
+                for bi, t in mir.calls(h):
+                    if (t.get("method") in LIMITED) and "Deserializer" in (t.get("trait") or ""):
+                        hits.append((t["line"], t["method"]))
+        if hits:
+            res.add([finding("HANDCODE", "%s|%s" % (b, hits[0][1]), where(g, hits[0][0]),
+                             "hand-written reader on the wire path (%s) asks the format for `%s`: ciborium (the only TIR format) hands a %s to the visitor from its fixed 4096-byte scratch buffer and *rejects* longer ones, while the writer has no such limit - values above 4096 bytes encode but no longer decode" % (why, hits[0][1], LIMITED[hits[0][1]]))])
+        else:
+            res.add([assumption("HANDCODE", "%s|hand-written codec code" % b, where(g) if g else "crates/tx3-tir/src", "hand-written code on the wire path (%s): writer/reader agreement for it is not covered by the derive argument (not decided)" % why)])
+
+
 def run(ctx):
     F = ctx.F
     res = Result("C11")
@@ -215,7 +261,9 @@ def run(ctx):
     res.rule("IDENT", "Utxo's Hash and PartialEq read the same fields")
     res.rule("GATE", "only versions >= MIN_SUPPORTED_VERSION are decoded; unknown version text is an error")
     res.rule("PANIC", "no undischarged panic site in the workspace part of the codec")
+    res.rule("HANDCODE", "no hand-written function inside the closure of the derived Serialize/Deserialize impls")
     wire(F, res)
+    handcode(F, res)
     ident(F, res)
     gate(F, res)
     cg = CallGraph(F)
